@@ -223,7 +223,18 @@ type ObjInv struct {
 	Text  string
 }
 
+// InitInv: a fact about package-level state that one init function establishes (it is added
+// to that function's postconditions) and that every other function may assume, because a
+// sweep shows that nothing else writes the variables it mentions.
+type InitInv struct {
+	P      Pos
+	Name   string
+	By     string
+	Clause *Clause
+}
+
 type SpecFile struct {
+	InitInvs   []*InitInv
 	Axioms     []*Clause
 	OnlyWrites map[string][]string
 	ObjInvs   []*ObjInv
@@ -409,7 +420,7 @@ var clauseKeywords = map[string]bool{
 	"requires": true, "ensures": true, "defines": true, "axiom": true, "assigns": true, "panics": true, "decreases": true,
 	"loop": true, "dispatch": true, "like": true, "inline": true, "trusted": true,
 	"func": true, "extern": true, "spec": true, "ghost": true, "lemma": true, "bvtype": true,
-	"invariant": true, "cut": true, "globalfact": true, "frame": true, "objinv": true, "onlywrites": true, "noalloc": true, "at": true, "tags": true,
+	"invariant": true, "cut": true, "globalfact": true, "initinv": true, "frame": true, "objinv": true, "onlywrites": true, "noalloc": true, "at": true, "tags": true,
 }
 
 // startsItem reports whether the current token begins a new clause/item (keyword at
@@ -494,6 +505,22 @@ func parseSpecFile(file string, lines []string, lineNos []int) (sf *SpecFile, er
 		case "globalfact":
 			lx.next()
 			sf.GFacts = append(sf.GFacts, lx.parseClause())
+		case "initinv":
+			lx.next()
+			ii := &InitInv{P: lx.pos()}
+			ii.Name = lx.next().text
+			if !lx.isId("by") {
+				lx.fail("initinv <name> by <init function>: <expr>")
+			}
+			lx.next()
+			var parts []string
+			for !lx.isOp(":") {
+				parts = append(parts, lx.next().text)
+			}
+			ii.By = strings.Join(parts, "")
+			lx.expect(":")
+			ii.Clause = lx.parseClause()
+			sf.InitInvs = append(sf.InitInvs, ii)
 		case "axiom":
 			lx.next()
 			sf.Axioms = append(sf.Axioms, lx.parseClause())
